@@ -218,7 +218,9 @@ def events(tree, inputs, limit=64):
                 now = nxt
             elif heap:
                 nxt = heap[0][0]
-                out.append(rest_event(nxt - now, inputs[0]))
+                r = rest_event(nxt - now, inputs[0])
+                r['delta'] = ['F', str(nxt - now)]      # the gap, whatever stretch the input event carries
+                out.append(r)
                 now = nxt
         return out
     raise ValueError(tree)
